@@ -27,7 +27,7 @@ PROPS = {
     },
     "C03": {
         "theorems": ["MlaModel.Theorems.C11Encrypt"],
-        "required": ["MlaModel.C11.EncRd.isCursor", "MlaModel.C11.CompRd.isCursor"],
+        "required": ["MlaModel.C11.EncRd.isCursor"],
         "configs": ["prod", "s40"], "configs_thorough": SCALED_T,
         "rule": "every single-bit flip of every byte after the magic (scaled; one bit per byte quick, all bits thorough), windowed + sampled flips at production constants, chunk swap/duplicate/delete/splice/drop-tail, header-field edits, three read orders; non-trivial = the edit changes the archive",
         "strength": "finding D14 (whole-chunk truncation with a planted footer); layer-level statement under INT-CTXT in progress",
@@ -54,11 +54,11 @@ PROPS = {
         "strength": "full",
     },
     "C10": {
-        "theorems": ["MlaModel.Theorems.C01"],
-        "required": ["MlaModel.C01.blocks"],
+        "theorems": ["MlaModel.Theorems.C10"],
+        "required": ["MlaModel.C10.history", "MlaModel.C10.same_as_alone", "MlaModel.C10.hash_same_as_alone"],
         "configs": ["prod", "s40"], "configs_thorough": SCALED_T,
         "rule": "generated archives (interleaved files over several chunks and blocks) x generated histories of list/open/read(buffer sizes 0,1,2,3,5,7,chunk,block,>file)/abandon/hash/size; non-trivial = history longer than 3 ops",
-        "strength": "history theorem over a generic cursor-like stream in progress",
+        "strength": "full: for every history over ANY cursor-like layer stack every answer is the specification's (C10.history), hence the same as reading the file alone (C10.same_as_alone)",
     },
     "C11": {
         "theorems": ["MlaModel.Theorems.C11Encrypt", "MlaModel.Theorems.C11Compress", "MlaModel.Theorems.CodecStored"],
